@@ -156,8 +156,20 @@ def step (s : St) (args : List String) (impl : String) : St × Out :=
             (nd.p.wheel.slots.flatten.count a > 1) || (nd'.p.wheel.slots.flatten.count a > 1) ||
             s.tainted.contains (n, a))
           let v32 := HsManager.c32 ctx kind nd.cfg (match op with | .tick _ => some r1view | .trig .. => some r1view | _ => none) tainted
+          let swapAllowed : Option Bool := match pre.resolve op with
+            | .swap _ li => (alookup li nd.main.indexes).map (fun hi => decide (hi.vpnAddrs.headD 0 ≥ nd.cfg.myAddrs.headD 0))
+            | _ => none
+          let peerPairs : List (Nat × Nat) := match pre.resolve op with
+            | .deliver k => match pre.log[k]? with
+              | some (_, src, _) => ((pre.node? src).map (fun p => p.main.indexes.map (fun (li, h) => (li, h.remoteIndex)))).getD []
+              | none => []
+            | .dto k _ => match pre.log[k]? with
+              | some (_, src, _) => ((pre.node? src).map (fun p => p.main.indexes.map (fun (li, h) => (li, h.remoteIndex)))).getD []
+              | none => []
+            | _ => []
+          let v31 := HsManager.c31 ctx kind (secs.headD "") swapAllowed peerPairs
           let verdict := if secs.length != 7 then (if impl == model then "ok" else "bad malformed-answer") else
-            [v09, v10, v32].foldl (fun acc v => if acc == "ok" then v else acc) "ok"
+            [v09, v10, v32, v31].foldl (fun acc v => if acc == "ok" then v else acc) "ok"
           (s', { model := model, verdict := verdict, tag := HsManager.tagOf kind op res })
         | _, _ => (s, badOp)
 
